@@ -56,6 +56,10 @@ def plan(tier):
             out.append(("trunc-random", fam, k, None))
         for k in range(10):
             out.append(("ood", fam, k, None))
+        # interior parameters next to a line where two vertices of the exact intersection merge: separation 2e-4..8e-4,
+        # well above the documented 1e-6 resolution yet close enough for a coarser de-duplication to bite
+        for k in range(8 if tier == "quick" else 60):
+            out.append(("trunc-nearmerge", fam, k, None))
     nt = 41 if tier == "quick" else 401
     for k in range(nt):
         out.append(("ttet", "TruncatedTetrahedronFamily", k / (nt - 1), None))
@@ -195,6 +199,59 @@ def run_case(i, rng, rec, tier, state):
     kind, fam, p1, p2 = plan(tier)[i]
     F = getattr(cf, fam)
     rec.cls(kind)
+    if kind == "trunc-nearmerge":
+        (a0, a1), (c0, c1), b = DOMAIN[fam]
+        planes = np.asarray(F.get_planes(), float)
+        types = np.asarray(F.get_plane_types())
+
+        def sep_at(a, c):
+            ex = enumerate_vertices(planes, np.array([a, b, c])[types])
+            return min_separation(ex) if len(ex) > 1 else 0.0
+
+        found = None
+        for _ in range(6):
+            p = np.array([rng.uniform(a0, a1), rng.uniform(c0, c1)])
+            q = np.array([rng.uniform(a0, a1), rng.uniform(c0, c1)])
+            ts = np.linspace(0, 1, 41)
+            ss = np.array([sep_at(*(p + t * (q - p))) for t in ts])
+            target = float(10 ** rng.uniform(np.log10(2e-4), np.log10(8e-4)))
+            f = lambda t: sep_at(*(p + t * (q - p)))  # noqa: E731
+            for j in range(1, len(ts) - 1):
+                if not (ss[j] <= ss[j - 1] and ss[j] <= ss[j + 1] and ss[j] < 0.05):
+                    continue
+                lo, hi = ts[j - 1], ts[j + 1]
+                for _ in range(60):              # ternary search for the bottom of the V (a merge line crosses the segment there)
+                    m1, m2 = lo + (hi - lo) / 3, hi - (hi - lo) / 3
+                    if f(m1) < f(m2):
+                        hi = m2
+                    else:
+                        lo = m1
+                tmin = (lo + hi) / 2
+                if f(tmin) > 1e-4:
+                    continue                     # a dip, not a merge
+                lo, hi = tmin, ts[j + 1] if rng.random() < 0.5 else ts[j - 1]
+                if f(hi) <= target:
+                    continue
+                for _ in range(50):              # walk away from the merge line until the separation reaches the target
+                    mid = (lo + hi) / 2
+                    if f(mid) < target:
+                        lo = mid
+                    else:
+                        hi = mid
+                cand = p + hi * (q - p)
+                sc = sep_at(*cand)
+                if 1.5e-4 < sc < 9e-4:
+                    found = (float(cand[0]), float(cand[1]), sc)
+                    break
+            if found:
+                break
+        if not found:
+            rec.note("no near-merge parameter found on the sampled segments")
+            return
+        rec.cls("trunc:near-merge-line")
+        check_truncation(rec, fam, F, found[0], found[1], b, None)
+        rec.nontriv(fam, found[0], found[1])
+        return
     if kind in ("trunc", "trunc-random"):
         (a0, a1), (c0, c1), b = DOMAIN[fam]
         if kind == "trunc":
